@@ -360,13 +360,37 @@ func historyDigestsRestarted(u *Universe, h *History, at int, path string) ([]st
 func historyDigestsMempool(u *Universe, h *History, strip bool) []string {
 	im := NewImpl(u)
 	out := []string{}
-	for _, op := range h.Ops {
+	for oi, op := range h.Ops {
 		if op.Kind == "check" {
 			if !strip {
 				im.Do(op)
 			}
 			out = append(out, "")
 			continue
+		}
+		if op.Kind == "begin" && !strip && im.App != nil {
+			// this replica is also the proposer of every block: it is asked to prepare a proposal from the block's
+			// transactions with room for all but one byte of them, to process the proposal, and for its Info
+			var txs [][]byte
+			total := int64(0)
+			for _, nx := range h.Ops[oi+1:] {
+				if nx.Kind == "end" || nx.Kind == "begin" || nx.Kind == "init" {
+					break
+				}
+				if nx.Kind == "deliver" {
+					b := nx.Tx.Bytes(u)
+					txs = append(txs, b)
+					total += int64(len(b))
+				}
+			}
+			func() {
+				defer func() { _ = recover() }()
+				im.App.PrepareProposal(abcitypes.RequestPrepareProposal{Txs: txs, MaxTxBytes: total - 1, Height: op.Height})
+				im.App.PrepareProposal(abcitypes.RequestPrepareProposal{Txs: txs, MaxTxBytes: total, Height: op.Height})
+				im.App.ProcessProposal(abcitypes.RequestProcessProposal{Txs: txs, Height: op.Height})
+				im.App.Info(infoReq)
+				im.App.Query(abcitypes.RequestQuery{})
+			}()
 		}
 		if op.Kind == "deliver" && !strip {
 			im.Do(&Op{Kind: "check", Tx: op.Tx})
@@ -499,7 +523,7 @@ func monitorC09(cfg CheckConfig, res *hx.Result, traces []*Trace) error {
 		// replicas with other mempools: the answers to the block sequence do not depend on what was checked
 		for _, strip := range []bool{true, false} {
 			got := historyDigestsMempool(NewUniverse(t.H.N), t.H, strip)
-			name := "replica that checked every transaction twice before it was delivered vs the history's own mempool checks"
+			name := "replica that checked every transaction twice before it was delivered and was asked to prepare and process every block's proposal vs the history's own mempool checks"
 			if strip {
 				name = "replica that was asked to check no transaction vs the history's own mempool checks"
 			}
